@@ -6,7 +6,11 @@ Builds scratch copies of the sources the translator reads (KESTREL_REPO or /repo
     literals wrapped in named constants, const/static/pub(crate) variations, swapped operands of a comparison ...)
     and asserts that EVERY extracted value is unchanged, and
   * REAL changes (a value, an offset, an endianness, an argument order altered) and asserts that the named items
-    change or that extraction fails (ExtractError) -- never the old values.
+    change or are NOT LOCATED (they then fall back to the baseline and ./check reports them for the properties that use
+    them) -- never located with the old values;
+  * changes one pattern cannot follow (tools/extract_fixtures/partial/) and asserts FAULT ISOLATION: exactly the
+    expected items fall back, every other item is still located;
+  * and asserts that the committed baseline tools/extracted_baseline.json is the extraction of the unchanged tree.
 Every rewrite must actually change the text (a pattern that no longer matches is a test error, not a pass).
 
 With --cargo every HARMLESS rewrite is also applied to a full copy of the tree and `cargo test --offline --workspace
@@ -15,7 +19,7 @@ every REAL change must at least compile (`cargo check`).  Slow (about 15 s per c
 
 usage: tools/test_extract.py [-v] [-k substring] [--cargo]        exit status 0 iff every case passes
 """
-import os, re, shutil, subprocess, sys, tempfile
+import json, os, re, shutil, subprocess, sys, tempfile
 
 HERE = os.path.dirname(os.path.abspath(__file__))
 sys.path.insert(0, HERE)
@@ -284,11 +288,30 @@ def cargo(ctree, target, edits, args):
 
 
 def run_extract(root):
+    """strict: every item located, or (None, first error)"""
     try:
         E, M = extract.extract(root)
         return extract.jsonable(E), None
-    except ExtractError as e:
+    except (ExtractError, extract.FatalExtract) as e:
         return None, str(e)
+
+
+def run_partial(root):
+    """fault-isolated run: (values of the located items, {item: error} of those that fall back to the baseline),
+    or (None, message) when the failure is fatal"""
+    try:
+        S = extract.extract_all(root)
+    except (ExtractError, extract.FatalExtract) as e:
+        return None, str(e)
+    return extract.jsonable(S.E), S.failed_items(extract.load_baseline())
+
+
+PARTIAL = os.path.join(HERE, "extract_fixtures", "partial")
+# changes that one pattern cannot follow: EXACTLY these items fall back (everything else is located; the items named
+# second are located with a changed value)
+PARTIAL_CASES = [
+    ("keyring_cost_shift.diff", ["kr_unlock_scrypt_roles"], ["kr_unlock_scrypt_args_const", "kr_unlock_version_checked"]),
+]
 
 
 def main():
@@ -308,6 +331,28 @@ def main():
             print("FAIL the scratch copy does not extract like %s" % BASE)
             return 1
         print("baseline: %d items" % len(base))
+        # the committed baseline (what an unlocatable item falls back to) is the extraction of the unchanged tree
+        bl = extract.load_baseline()
+        if bl is None:
+            print("FAIL tools/extracted_baseline.json is missing or unreadable")
+            fails += 1
+        else:
+            bv = {k: v["value"] for k, v in bl["items"].items()}
+            jb = json.loads(json.dumps(base))      # tuples -> lists, as in the file
+            if bv != jb:
+                d = [k for k in sorted(set(bv) | set(jb)) if bv.get(k) != jb.get(k)]
+                print("FAIL tools/extracted_baseline.json is stale (run tools/extract.py --write-baseline on the unchanged tree): "
+                      + ", ".join(d[:8]))
+                fails += 1
+            else:
+                S0 = extract.extract_all(root)
+                lines = extract.render_lines(S0.E)
+                bad = [k for k in lines if bl["items"][k]["coq"] != lines[k] or bl["items"][k]["section"] != S0.sec.get(k)]
+                if bad:
+                    print("FAIL tools/extracted_baseline.json: stale Coq lines / sections for " + ", ".join(bad[:8]))
+                    fails += 1
+                else:
+                    print("ok   baseline  tools/extracted_baseline.json = extraction of the unchanged tree (%d items)" % len(bv))
         nh = nr = 0
         for (name, edits) in HARMLESS:
             if only and only not in name:
@@ -343,17 +388,43 @@ def main():
                 print("FAIL real      %-70s rewrite did not apply: %s" % (name, ex))
                 fails += 1
                 continue
-            got, err = run_extract(root)
+            got, failed = run_partial(root)
             if got is None:
-                print("ok   real      %-70s extraction fails (%s)" % (name, err[:90].replace("\n", " ")))
+                print("ok   real      %-70s extraction fails as a whole (%s)" % (name, failed[:90].replace("\n", " ")))
             else:
-                same = [k for k in must if got.get(k) == base.get(k)]
+                # a named item must be located with another value, or fail ITSELF (then ./check reports it for the
+                # properties that use it); keeping the old value as a located item is the one thing that must not happen
+                same = [k for k in must if k not in failed and got.get(k) == base.get(k)]
                 if same:
                     print("FAIL real      %-70s unchanged: %s" % (name, ", ".join(same)))
                     fails += 1
                 else:
-                    extra = [k for k in sorted(base) if base.get(k) != got.get(k)]
-                    print("ok   real      %-70s changed: %s" % (name, ", ".join(extra[:8])))
+                    extra = [k for k in sorted(base) if k in got and base.get(k) != got.get(k)]
+                    print("ok   real      %-70s changed: %s%s" % (name, ", ".join(extra[:8]),
+                          ("; not located: " + ", ".join(sorted(failed)[:6])) if failed else ""))
+        for (fx, exp_failed, exp_changed) in PARTIAL_CASES:
+            if only and only not in fx:
+                continue
+            fresh_copy(root)
+            p = subprocess.run(["git", "apply", os.path.join(PARTIAL, fx)], cwd=root, stdout=subprocess.PIPE, stderr=subprocess.STDOUT, text=True)
+            if p.returncode != 0:
+                print("FAIL partial   %-70s git apply: %s" % (fx, p.stdout[:200]))
+                fails += 1
+                continue
+            got, failed = run_partial(root)
+            if got is None:
+                print("FAIL partial   %-70s fatal: %s" % (fx, failed[:200]))
+                fails += 1
+                continue
+            changed = [k for k in sorted(base) if k in got and got[k] != base[k]]
+            lost = [k for k in base if k not in got and k not in failed]
+            if sorted(failed) != sorted(exp_failed) or changed != sorted(exp_changed) or lost:
+                print("FAIL partial   %-70s not located %s (expected %s); changed %s (expected %s); lost %s" % (
+                    fx, sorted(failed), exp_failed, changed, exp_changed, lost))
+                fails += 1
+            else:
+                print("ok   partial   %-70s not located: %s; changed: %s; the other %d items located unchanged" % (
+                    fx, ", ".join(exp_failed), ", ".join(changed), len(base) - len(failed) - len(changed)))
         if "--cargo" in sys.argv:
             ctree = os.path.join(work, "ctree")
             shutil.copytree(BASE, ctree, ignore=shutil.ignore_patterns("target", ".git"))
